@@ -1654,10 +1654,14 @@ where
         if self.options.resolve_type && !self.type_decls_collected {
             let key = (ts_interface_decl.id.sym.clone(), ts_interface_decl.id.ctxt);
             if let Some(interface) = self.interfaces.get_mut(&key) {
+                // a later declaration of the same interface adds its members and its parents
                 interface
                     .body
                     .body
                     .extend_from_slice(&ts_interface_decl.body.body);
+                interface
+                    .extends
+                    .extend_from_slice(&ts_interface_decl.extends);
             } else {
                 self.interfaces.insert(key, ts_interface_decl.clone());
             }
@@ -1770,6 +1774,9 @@ impl Visit for TypeDeclCollector<'_> {
                 .body
                 .body
                 .extend_from_slice(&ts_interface_decl.body.body);
+            interface
+                .extends
+                .extend_from_slice(&ts_interface_decl.extends);
         } else {
             self.interfaces.insert(key, ts_interface_decl.clone());
         }
